@@ -327,9 +327,9 @@ def feature_counts(cases):
             walk(n)
             if expect.inst_refs(n):
                 inc('library node with instance_node')
-        order = [n['id'] for n in expect.library_node_order(d['nodes'])]
-        if order != [n['id'] for n in d['nodes']]:
-            inc('deferred library nodes (forward instance_node)')
+        ids = [n['id'] for n in d['nodes']]
+        if any(r in ids[k + 1:] for k, n in enumerate(d['nodes']) for r in expect.inst_refs(n)):
+            inc('library node instantiating a later library node (deferred load)')
         for s in d['scenes']:
             ids = [n['id'] for n in s['nodes']]
             for k, n in enumerate(s['nodes']):
